@@ -715,6 +715,25 @@ func runConcurrent(c *harness.Ctx) harness.Result {
 	r := c.Rng
 	drv.IsolateEnv(c.Tmp)
 	path := settingsPath(c.Tmp)
+	if c.Index%2 == 1 {
+		// the settings file is a symbolic link (dotfile managers do that) and already holds a
+		// number of saved configurations, so that it takes a moment to write
+		real := filepath.Join(c.Tmp, "dotfiles")
+		os.MkdirAll(real, 0o755)
+		os.MkdirAll(filepath.Dir(path), 0o755)
+		var sb strings.Builder
+		sb.WriteString(`{"configs":[`)
+		for i := 0; i < 60; i++ {
+			if i > 0 {
+				sb.WriteString(",")
+			}
+			fmt.Fprintf(&sb, `{"name":"keep%02d","focus":"%s","nodecount":%d}`, i, strings.Repeat("f", 200), i+1)
+		}
+		sb.WriteString(`]}`)
+		os.WriteFile(filepath.Join(real, "settings.json"), []byte(sb.String()), 0o644)
+		os.Symlink(filepath.Join(real, "settings.json"), path)
+		c.Stat("concurrent_symlinked_settings", 1)
+	}
 	web, err := drv.StartWeb(&drv.MapFetcher{Profiles: map[string]*profile.Profile{"p": smallProfile()}}, []string{"p"}, nil, nil, nil)
 	if err != nil {
 		return harness.Result{Verdict: harness.Inconclusive, Detail: err.Error()}
@@ -771,7 +790,9 @@ func runConcurrent(c *harness.Ctx) harness.Result {
 							atomic.AddInt64(&torn, 1)
 						}
 						for _, cfg := range js.Configs {
-							m[cfg.Name] = cfg.Focus
+							if !strings.HasPrefix(cfg.Name, "keep") { // configurations that were there before
+								m[cfg.Name] = cfg.Focus
+							}
 						}
 					}
 					out.List = canon(m)
